@@ -118,7 +118,11 @@ def trace_document(tables, text):
             name, ips = node_map
             ops.append('\t'.join(['WWALK', name, ipstr(ips[id(node)]), str(I(sid)), str(I(seg.get_value('01'))),
                                   str(I(seg.get_value('02'))), str(I(seg.get_value('03'))), str(I(seg.get_value('01-1')))]))
-            (n2, pops, pushes) = walker.walk(node, seg, errh, src.get_seg_count(), src.get_cur_line(), src.get_ls_id())
+            try:
+                (n2, pops, pushes) = walker.walk(node, seg, errh, src.get_seg_count(), src.get_cur_line(), src.get_ls_id())
+            except Exception as ex:     # the real walker raised: a disagreement with the (total) model, reported as such
+                real.append('crash:%s' % type(ex).__name__)
+                return real, ops, 'walker-crash:' + type(ex).__name__
             ev = errh.take()
             real.append('%s|%s|%s|%s' % (
                 ipstr(ips[id(n2)]) if n2 is not None else 'none',
